@@ -175,9 +175,10 @@ pub fn child(k: usize, outdir: &str, seed: u64, thorough: bool) -> serde_json::V
     }
     // (C) every aggregate
     let ags = aggregates();
-    for _ in 0..(80 * scale) {
+    for j in 0..(80 * scale) {
         let mut r = rng.fork();
-        let a = *r.pick(&ags);
+        // (the first rounds: every aggregate once on a long list of distinct values)
+        let a = if (j as usize) < ags.len() { ags[j as usize] } else { *r.pick(&ags) };
         let elem = match r.below(7) { 0 => Ty::Int(vec![{ let x = r.range(-20, 20); (x, x + r.range(0, 30)) }]), 1 => Ty::Float(vec![{ let x = (r.range(-40, 40) as f64) / 4.0; (x, x + (r.range(0, 80) as f64) / 4.0) }]),
             2 => Ty::Int(vec![(0, 1)]), 3 => Ty::Float(vec![(0.1, 0.1)]),
             // non-convex element types: value sets and unions of intervals (a mean, a variance ... falls in the gaps)
@@ -185,13 +186,18 @@ pub fn child(k: usize, outdir: &str, seed: u64, thorough: bool) -> serde_json::V
             5 => Ty::Float({ let n = r.range(2, 3); let mut x = (r.range(-40, 0) as f64) / 4.0; (0..n).map(|_| { let a = x; let b = a + (r.range(0, 8) as f64) / 4.0; x = b + (r.range(4, 60) as f64) / 4.0; (a, b) }).collect() }),
             _ => Ty::Int({ let n = r.range(2, 3); let mut x = r.range(-30, 0); (0..n).map(|_| { let a = x; let b = a + r.range(0, 3); x = b + r.range(2, 20); (a, b) }).collect() }) };
         let elem = if r.chance(1, 6) { Ty::Opt(Box::new(elem)) } else { elem };
-        let lo = r.range(0, 3) as usize; let hi = lo + r.range(0, 5) as usize;
+        // one case in eight: a wide integer range and a long list of pairwise distinct values (more values than the 128 an
+        // interval set holds: counts, distinct counts and sums of many elements)
+        let wide = (j as usize) < ags.len() || r.chance(1, 8);
+        let wide_lo = r.range(-50, 50);
+        let elem = if wide { Ty::Int(vec![(wide_lo, wide_lo + r.range(400, 3000))]) } else { elem };
+        let lo = r.range(0, 3) as usize; let hi = if wide { r.range(130, 400) as usize } else { lo + r.range(0, 5) as usize };
         let lt = DataType::list(to_dt(&elem), lo, hi);
         progress(outdir, &format!("aggregate {:?} on {}", a, lt));
         let img = catch_unwind(AssertUnwindSafe(|| a.super_image(&lt).map_err(|e| e.to_string())));
         for _ in 0..3 {
-            let n = r.range(lo.max(1) as i64, hi.max(1) as i64) as usize;
-            let xs: Vec<Value> = (0..n).map(|_| sample(&elem, &mut r)).collect();
+            let n = if (j as usize) < ags.len() { hi } else { r.range(lo.max(1) as i64, hi.max(1) as i64) as usize };
+            let xs: Vec<Value> = if wide { let step = r.range(1, 3); (0..n).map(|i| Value::integer(wide_lo + i as i64 * step)).collect() } else { (0..n).map(|_| sample(&elem, &mut r)).collect() };
             let l = Value::list(xs.clone());
             if !lt.contains(&l) { st.bump("aggregate_sample_outside_type"); continue; }
             let y = catch_unwind(AssertUnwindSafe(|| a.value(&l).ok()));
